@@ -395,6 +395,13 @@ Fixpoint check_spawns (reqs : list (aid * aid)) (prev : list (option bool))
   | x :: t => check_spawn_at reqs prev x && check_spawns reqs (snd x) t
   end.
 
+(* explicit links: a `link c p` that was accepted in the window (read back at once) and not followed by
+   another move of c in that window: at the quiescent end c names p or is Stopping/Stopped
+   (Proofs: OracleProofs.spawn_clause_sound, the same statement as for the spawn's own link) *)
+Definition check_links (l : list (snapshot * list (aid * aid))) : bool :=
+  forallb (fun x => forallb (fun cp => oeq (sup_of (fst x) (fst cp)) (snd cp) || (5 <=? rank_of (fst x) (fst cp)))
+                            (snd x)) l.
+
 (* the oracle of C05 on the implementation's sequence of quiescent snapshots *)
 Definition check_C05 (l : list snapshot) : bool :=
   forallb check_snap l && check_pairs l.
